@@ -123,17 +123,19 @@ type foreignWrite struct {
 
 // runCtx is what the importer and the readers of one run share.
 type runCtx struct {
-	w           *world
-	node        *sim.Node
-	ctr         atomic.Uint64 // THE global stamp counter
-	phase       atomic.Uint32
-	stop        atomic.Bool
-	imp         []impEv // importer goroutine only
-	cur         thor.Bytes32
-	impG        uint64
-	foreign     []foreignWrite // appended under the kv engine's lock
-	failures    []string
-	afterImport func() // reference run only
+	w                                           *world
+	node                                        *sim.Node
+	ctr                                         atomic.Uint64 // THE global stamp counter
+	phase                                       atomic.Uint32
+	stop                                        atomic.Bool
+	imp                                         []impEv // importer goroutine only
+	cur                                         thor.Bytes32
+	impG                                        uint64
+	foreign                                     []foreignWrite // appended under the kv engine's lock
+	failures                                    []string
+	afterImport                                 func() // reference run only
+	lastPackedOn                                thor.Bytes32
+	ownBlocks, staleBlocks, poolUsed, packedTxs int
 }
 
 func goid() uint64 {
@@ -189,50 +191,132 @@ func (rc *runCtx) onWrite(idx int, b *kvrec.Batch) {
 	rc.imp = append(rc.imp, ev)
 }
 
-// importAll is the ONE importing/producing goroutine: the pre-minted stream through the real processBlock at full
-// speed, then `propose` blocks through the real doPack.
-func (rc *runCtx) importAll() {
+// deliver imports one received block through the real processBlock.
+func (rc *runCtx) deliver(blk *block.Block) {
 	n := rc.node
-	for _, blk := range rc.w.stream {
-		id := blk.Header().ID()
-		rc.cur = id
-		rc.phase.Store(phBegin)
-		rc.imp = append(rc.imp, impEv{t: rc.ctr.Add(1), e: "Begin", b: id})
-		bi := len(rc.imp) - 1
-		class, err := n.Deliver(blk)
-		rc.phase.Store(phIdle)
-		t := rc.ctr.Add(1)
-		if rc.afterImport != nil {
-			rc.afterImport()
+	id := blk.Header().ID()
+	rc.cur = id
+	rc.phase.Store(phBegin)
+	rc.imp = append(rc.imp, impEv{t: rc.ctr.Add(1), e: "Begin", b: id})
+	bi := len(rc.imp) - 1
+	class, err := n.Deliver(blk)
+	rc.phase.Store(phIdle)
+	t := rc.ctr.Add(1)
+	if rc.afterImport != nil {
+		rc.afterImport()
+	}
+	switch class {
+	case "ok":
+		rc.imp = append(rc.imp, impEv{t0: rc.imp[bi].t, t: t, e: "Done", b: id, bestID: n.Repo.BestBlockSummary().Header.ID(), finID: n.BFT.Finalized()})
+	case "known", "parent-missing", "unprocessable", "bft-rejected":
+		rc.imp[bi].e, rc.imp[bi].why = "Skip", class
+	default:
+		rc.imp = append(rc.imp, impEv{t: t, e: "Fail", b: id, err: fmt.Sprint(err)})
+		rc.failures = append(rc.failures, fmt.Sprintf("import of block %d (%x) failed: %v", blk.Header().Number(), id[28:], err))
+	}
+}
+
+// schedule prepares a packing flow on the current best block (the node's own earliest slot), with txs in the pool.
+func (rc *runCtx) schedule() *packer.Flow {
+	n := rc.node
+	best := n.Repo.BestBlockSummary()
+	if best.Header.ID() == rc.lastPackedOn {
+		return nil // packing twice on one parent in one slot would produce the very same block again
+	}
+	flow, err := n.Packer.Schedule(best, best.Header.Timestamp()+thor.BlockInterval())
+	if err != nil {
+		return nil
+	}
+	rc.lastPackedOn = best.Header.ID()
+	return flow
+}
+
+// pack produces a block through the real doPack (ShouldVote, Adopt from the pool, Pack, commitBlock) on the given flow,
+// which may be STALE (scheduled on a block that is not best any more).
+func (rc *runCtx) pack(flow *packer.Flow, what string) bool {
+	n := rc.node
+	if k := rc.w.poolNext; k < len(rc.w.poolTxs) { // executables offered by the pool: typed and legacy transactions
+		hi := min(k+3, len(rc.w.poolTxs))
+		n.Pool.Txs = rc.w.poolTxs[k:hi]
+		rc.poolUsed += hi - k
+	}
+	rc.cur = thor.Bytes32{}
+	rc.phase.Store(phBegin)
+	rc.imp = append(rc.imp, impEv{t: rc.ctr.Add(1), e: "Begin"})
+	bi := len(rc.imp) - 1
+	before := len(n.Comm.Out)
+	err := n.Node.VerifDoPack(flow)
+	rc.phase.Store(phIdle)
+	t := rc.ctr.Add(1)
+	n.Pool.Txs = nil
+	if err == nil && len(n.Comm.Out) != before+1 {
+		err = fmt.Errorf("doPack did not broadcast a block")
+	}
+	if err != nil {
+		rc.imp = append(rc.imp, impEv{t: t, e: "Fail", err: fmt.Sprint(err)})
+		rc.failures = append(rc.failures, fmt.Sprintf("%s failed: %v", what, err))
+		return false
+	}
+	blk := n.Comm.Out[len(n.Comm.Out)-1]
+	id := blk.Header().ID()
+	for j := bi; j < len(rc.imp); j++ { // the id is known only now
+		rc.imp[j].b = id
+	}
+	rc.packedTxs += len(blk.Transactions())
+	rc.imp = append(rc.imp, impEv{t0: rc.imp[bi].t, t: t, e: "Done", b: id, bestID: n.Repo.BestBlockSummary().Header.ID(), finID: n.BFT.Finalized()})
+	return true
+}
+
+// importAll is the ONE importing/producing goroutine: the pre-minted stream through the real processBlock at full
+// speed; between stream blocks the node packs blocks of its own from a non-empty pool (its block is then usually
+// replaced by the better sibling the stream delivers next), sometimes on a flow that went stale because a stream block
+// arrived between scheduling and packing; at the end `propose` blocks in a row.
+func (rc *runCtx) importAll() {
+	rc.poolUsed, rc.packedTxs = 0, 0
+	w := rc.w
+	w.poolNext = 0
+	for i := 0; i < len(w.stream); i++ {
+		rc.deliver(w.stream[i])
+		if len(rc.failures) > 0 {
+			continue
 		}
-		switch class {
-		case "ok":
-			rc.imp = append(rc.imp, impEv{t0: rc.imp[bi].t, t: t, e: "Done", b: id, bestID: n.Repo.BestBlockSummary().Header.ID(), finID: n.BFT.Finalized()})
-		case "known", "parent-missing", "unprocessable", "bft-rejected":
-			rc.imp[bi].e, rc.imp[bi].why = "Skip", class
-		default:
-			rc.imp = append(rc.imp, impEv{t: t, e: "Fail", b: id, err: fmt.Sprint(err)})
-			rc.failures = append(rc.failures, fmt.Sprintf("import of block %d (%x) failed: %v", blk.Header().Number(), id[28:], err))
+		switch w.packAfter[i] {
+		case 1:
+			if flow := rc.schedule(); flow != nil {
+				if !rc.pack(flow, "proposal after stream block "+fmt.Sprint(i)) {
+					return
+				}
+				w.poolNext += 3
+				rc.ownBlocks++
+			}
+		case 2: // stale flow: schedule, let the next stream block (a child of the current best) in, then pack
+			best := rc.node.Repo.BestBlockSummary().Header.ID()
+			if i+1 < len(w.stream) && w.stream[i+1].Header().ParentID() == best {
+				if flow := rc.schedule(); flow != nil {
+					i++
+					rc.deliver(w.stream[i])
+					if len(rc.failures) == 0 {
+						if !rc.pack(flow, "packing on a stale flow after stream block "+fmt.Sprint(i)) {
+							return
+						}
+						w.poolNext += 3
+						rc.ownBlocks++
+						rc.staleBlocks++
+					}
+				}
+			}
 		}
 	}
-	for k := 0; k < rc.w.propose; k++ {
-		rc.cur = thor.Bytes32{}
-		rc.phase.Store(phBegin)
-		rc.imp = append(rc.imp, impEv{t: rc.ctr.Add(1), e: "Begin"})
-		bi := len(rc.imp) - 1
-		blk, err := n.Propose(0)
-		rc.phase.Store(phIdle)
-		t := rc.ctr.Add(1)
-		if err != nil {
-			rc.imp = append(rc.imp, impEv{t: t, e: "Fail", err: fmt.Sprint(err)})
-			rc.failures = append(rc.failures, fmt.Sprintf("proposal %d failed: %v", k, err))
+	for k := 0; k < w.propose && len(rc.failures) == 0; k++ {
+		flow := rc.schedule()
+		if flow == nil {
 			break
 		}
-		id := blk.Header().ID()
-		for j := bi; j < len(rc.imp); j++ { // the id is known only now
-			rc.imp[j].b = id
+		if !rc.pack(flow, fmt.Sprintf("proposal %d", k)) {
+			break
 		}
-		rc.imp = append(rc.imp, impEv{t0: rc.imp[bi].t, t: t, e: "Done", b: id, bestID: n.Repo.BestBlockSummary().Header.ID(), finID: n.BFT.Finalized()})
+		w.poolNext += 3
+		rc.ownBlocks++
 	}
 	rc.cur = thor.Bytes32{}
 	// look-ahead annotations the trace spec binds at the step where the decision is taken
@@ -324,14 +408,41 @@ func (w *world) reference(tmp string) error {
 	if len(rc.failures) > 0 {
 		return fmt.Errorf("reference run: %s", rc.failures[0])
 	}
-	w.ref = refResult{best: n.Repo.BestBlockSummary().Header.ID(), fin: n.BFT.Finalized(), digest: n.KV.Digest(),
-		classes: map[thor.Bytes32]string{}, quals: map[thor.Bytes32]uint32{}, everBest: map[thor.Bytes32]bool{}, tally: map[thor.Bytes32]uint32{}}
+	snapshot := func() (refResult, error) {
+		r := refResult{best: n.Repo.BestBlockSummary().Header.ID(), fin: n.BFT.Finalized(), digest: n.KV.Digest()}
+		var err error
+		if r.justified, err = n.BFT.Justified(); err != nil {
+			return r, fmt.Errorf("reference: justified: %w", err)
+		}
+		r.events, r.transfers, err = nodecheck.DumpLogDB(n.LogDB)
+		return r, err
+	}
+	w.ref, err = snapshot()
+	if err != nil {
+		return err
+	}
+	w.ref.classes, w.ref.quals, w.ref.everBest, w.ref.tally = map[thor.Bytes32]string{}, map[thor.Bytes32]uint32{}, map[thor.Bytes32]bool{}, map[thor.Bytes32]uint32{}
+	mainEvents := len(rc.imp)
+	// the tail (imported by the nodes under test only after their quiescent query batch)
+	n.KV.OnWrite = rc.onWrite
+	for _, blk := range w.tail {
+		rc.deliver(blk)
+	}
+	n.KV.OnWrite = nil
+	if len(rc.failures) > 0 {
+		return fmt.Errorf("reference run (tail): %s", rc.failures[0])
+	}
+	tailRef, err := snapshot()
+	if err != nil {
+		return err
+	}
+	w.ref.tail = &tailRef
 	g := w.net.B0.Header().ID()
 	w.order = []thor.Bytes32{g}
 	w.ref.everBest[g] = true
 	seen := map[thor.Bytes32]bool{g: true}
-	for _, ev := range rc.imp {
-		if ev.e == "Done" || ev.e == "Skip" {
+	for k, ev := range rc.imp {
+		if k < mainEvents && (ev.e == "Done" || ev.e == "Skip") {
 			w.ref.seq = append(w.ref.seq, ev)
 		}
 		switch ev.e {
@@ -396,8 +507,7 @@ func (w *world) reference(tmp string) error {
 			w.ref.tally[id] = q
 		}
 	}
-	w.ref.events, w.ref.transfers, err = nodecheck.DumpLogDB(n.LogDB)
-	return err
+	return nil
 }
 
 func (w *world) isAnc(a, b thor.Bytes32) bool {
